@@ -7,7 +7,7 @@ machine arithmetic is treated as mathematical).  Symbolic values wrap z3 terms.
 from __future__ import annotations
 
 import itertools
-from fractions import Fraction
+from fractions import Fraction  # noqa: F401
 
 import z3
 
@@ -221,3 +221,35 @@ class Axioms:
     @staticmethod
     def pi():
         return [PI > z3.RealVal("3.14159"), PI < z3.RealVal("3.1416")]
+
+
+def auto_axioms(*terms):
+    """A4 instances for every pow/sqrt application (and pi) occurring in the given terms"""
+    out, seen = [], set()
+    stack = list(terms)
+    pi_seen = False
+    while stack:
+        t = stack.pop()
+        if not z3.is_expr(t):
+            continue
+        tid = t.get_id()
+        if tid in seen:
+            continue
+        seen.add(tid)
+        if z3.is_quantifier(t):
+            stack.append(t.body())
+            continue
+        if z3.is_app(t):
+            d = t.decl()
+            nm = d.name()
+            if nm == "u_pow" and t.num_args() == 2 and z3.is_rational_value(t.arg(1)):
+                pv = Fraction(t.arg(1).numerator_as_long(), t.arg(1).denominator_as_long())
+                if pv > 0:
+                    out += Axioms.pow(t.arg(0), pv, t)
+            elif nm == "u_sqrt":
+                out += Axioms.sqrt(t.arg(0), t)
+            elif nm == "c_pi" and not pi_seen:
+                pi_seen = True
+                out += Axioms.pi()
+            stack.extend(t.children())
+    return out
